@@ -306,8 +306,15 @@ pub fn scenario_params(tier: Tier) -> Vec<(P, u32)> {
         for (i, a) in seq2.iter().enumerate() {
             add(P { seqs: vec![a.clone(), seq2[(i * 7 + 3) % seq2.len()].clone()], transferred: i % 2 == 0, mode: TimedPolling }, 2);
         }
+        // the quick tier's mixes one deviation deeper, and one small mix at four deviations
+        for m in [vec![vec![L2, S], vec![L3, S]], vec![vec![S, L2], vec![L2]], vec![vec![One, S], vec![S, L3]]] {
+            for (j, mode) in [Blocking, Polling, Set, Delayed, TimedPolling].iter().enumerate() {
+                add(P { seqs: m.clone(), transferred: j % 2 == 1, mode: *mode }, 3);
+            }
+        }
+        add(P { seqs: vec![vec![S], vec![L2]], transferred: false, mode: Blocking }, 4);
+        add(P { seqs: vec![vec![L2], vec![S]], transferred: true, mode: Set }, 4);
         for mode in modes {
-            add(P { seqs: vec![vec![L2, S], vec![L3, S]], transferred: false, mode }, 3);
             add(P { seqs: vec![vec![L2], vec![L2], vec![S, S]], transferred: true, mode }, 2);
             add(P { seqs: vec![vec![L3, One], vec![S], vec![L2]], transferred: false, mode }, 2);
         }
